@@ -299,6 +299,7 @@ class Extractor:
                     full = (ctx + '::' + nm) if ctx else nm
                     if self.will_drop(nm, ctx):
                         self.fired['X1'] += 1
+                        self.note_dropped(nm, ctx, i, self.thing_end(i, hi))
                         i = self.thing_end(i, hi)
                         continue
                     if nm.startswith('macro ') and nm[6:] in self.simple_macros:
@@ -319,6 +320,7 @@ class Extractor:
                         e_ = self.thing_end(i, hi)
                         self.ifunc_body = (i, e_)
                         self.fired['X6'] += 1
+                        self.fired['X6-residue:' + self.ifunc_residue_sha(i, e_)] += 1
                         i = e_
                         continue
                     if nm.startswith('mod ') and toks[self.thing_end(i, hi) - 1].t == ';':
@@ -429,6 +431,20 @@ class Extractor:
             self.emit_tok(i)
             i += 1
 
+    def note_dropped(self, nm, ctx, a, b):
+        """code items left out by `drop_items` (not tests, not `use`) are not verified; with `pin_dropped` their text is
+        pinned by a hash so that a change to them is reported instead of silently ignored"""
+        if not self.opts.get('pin_dropped') or nm == 'mod tests' or nm.startswith('use'):
+            return
+        full = (ctx + '::' + nm) if ctx else nm
+        if not any(full == d or full.endswith('::' + d) for d in self.drop_items):
+            return
+        import hashlib
+        self._dropped_sha = hashlib.sha256((getattr(self, '_dropped_sha', '') + ' '.join(t.t for t in self.toks[a:b])).encode()).hexdigest()[:16]
+        for k in [k for k in self.fired if k.startswith('X0-dropped:')]:
+            del self.fired[k]
+        self.fired['X0-dropped:' + self._dropped_sha] = 1
+
     def will_drop(self, nm, ctx):
         full = (ctx + '::' + nm) if ctx else nm
         if ctx is None and self.only_items is not None and nm not in self.only_items and \
@@ -493,6 +509,7 @@ class Extractor:
             nm = None
         if nm is not None and self.will_drop(nm, ctx):
             self.fired['X1'] += 1
+            self.note_dropped(nm, ctx, j, self.thing_end(j, hi))
             return self.thing_end(j, hi)
         for k in kept:
             self.emit_syn(k, toks[i].s)
@@ -952,6 +969,26 @@ class Extractor:
         for kf, vf in sub.fired.items():
             self.fired[kf] += vf
         self.emit_syn(sub.render().strip(), hint)
+
+    def ifunc_residue_sha(self, lo, hi):
+        """X6 keeps the three helper fns of `unsafe_ifunc!` and REPLACES the rest of the macro (detect, the static
+        AtomicPtr, the transmute and the final call) by a choice among them (assumption A2).  The replaced text is pinned
+        by this hash (tool/units.py): if it changes, A2 no longer describes the code and the checks say so."""
+        import hashlib
+        body = self.toks[lo:hi]
+        skip = set()
+        for helper in ('find_avx2', 'find_sse2', 'find_fallback'):
+            for k in range(len(body) - 1):
+                if body[k].t == 'fn' and body[k + 1].t == helper:
+                    st = k - 1 if k > 0 and body[k - 1].t == 'unsafe' else k
+                    j = k
+                    while body[j].t != '{':
+                        j += 1
+                    en = match_close(body, j)
+                    skip.update(range(st, en + 1))
+                    break
+        text = ' '.join(t.t for x, t in enumerate(body) if x not in skip)
+        return hashlib.sha256(text.encode()).hexdigest()[:16]
 
     def expand_ifunc(self, o, c, hint):
         """X6: instantiate the three helper fns of `unsafe_ifunc!` by textual substitution of the macro arguments; the
